@@ -31,6 +31,7 @@ def run(ctx):
     ctx.guard(r2)
     ctx.guard(r3)
     ctx.guard(r4)
+    ctx.guard(r5_position_space)
 
 
 def _walk(stmts):
@@ -273,3 +274,54 @@ def r4(ctx):
             ctx.bad("C08.R4", f, f.node, "Fiber.%s no longer builds its "
                     "partitions with _splitNonUniform_iter" % name,
                     text_="Fiber.%s partitioner" % name)
+
+
+# -- R5: position-space splits count the elements the partitioner distributes --
+
+def r5_position_space(ctx):
+    """splitEqual / splitUnEqual choose the partition boundaries by counting
+    elements, then hand the boundaries to _splitNonUniform_iter, which
+    distributes the elements of the fiber's default (empties-skipping)
+    iteration.  Both must enumerate the same stream: counting stored
+    positions (raw coords / payloads lists) while distributing non-empty
+    elements makes chunks short whenever the fiber stores an explicit
+    default or an empty sub-fiber."""
+    from ..sites import iter_kind, RAW, FILTERED
+    dist = ctx.func("core/fiber.py:Fiber._splitNonUniform_iter."
+                    "_SplitterNonUniform_iter.__iter__")
+    dl = [x for x in dist.own_nodes() if isinstance(x, ast.For)
+          and iter_kind(ctx, dist, x.iter)[0] is not None
+          and "fiber" in text(x.iter)]
+    ctx.require(dl, "C08.R5: distributing loop of _splitNonUniform_iter not found")
+    dkind = iter_kind(ctx, dist, dl[0].iter)[0]
+    n = 0
+    for name in ("splitEqual", "splitUnEqual"):
+        f = ctx.method("Fiber", name)
+        inits = [m for m in ctx.prog.funcs.values()
+                 if m.outer is f and m.name == "__init__"]
+        ctx.require(inits, "C08.R5: splitter class of Fiber.%s not found" % name)
+        m = inits[0]
+        fp = m.params[1] if len(m.params) > 1 else None
+        loops = [x for x in m.own_nodes() if isinstance(x, ast.For)
+                 and fp and any(isinstance(y, ast.Name) and y.id == fp
+                                for y in ast.walk(x.iter))]
+        ctx.require(loops, "C08.R5: boundary loop of Fiber.%s not found" % name)
+        for lp in loops:
+            n += 1
+            kind, base = iter_kind(ctx, m, lp.iter)
+            if kind is None:
+                raise AnalysisError("C08.R5: cannot classify the stream `%s` "
+                                    "Fiber.%s counts" % (text(lp.iter), name))
+            if kind == dkind:
+                ctx.ok("C08.R5", m, lp, "boundaries counted over the same %s "
+                       "stream the partitioner distributes" % kind,
+                       text_="%s boundary stream" % name)
+            else:
+                ctx.bad("C08.R5", m, lp, "Fiber.%s counts elements over the %s "
+                        "stream `%s` but _splitNonUniform_iter distributes the "
+                        "%s stream `%s`: with a stored explicit default / empty "
+                        "sub-fiber the chunks no longer hold the stated number "
+                        "of elements and boundaries land on the wrong elements"
+                        % (name, kind, text(lp.iter), dkind, text(dl[0].iter)),
+                        text_="%s boundary stream" % name)
+    ctx.floor("C08.R5", n, 2, "position-space boundary loops")
